@@ -410,6 +410,12 @@ pub struct FdlActiveStation {
     /// data was received since the last poll.
     pending_bytes: usize,
 
+    /// Whether any bytes were received while supervising our last token pass.
+    ///
+    /// A damaged or truncated telegram never shows up as a telegram, but it still means that
+    /// somebody is transmitting, so the token pass must not be repeated.
+    heard_after_token_pass: bool,
+
     /// Timestamp of the acquisition of the last token.
     last_token_time: crate::time::Instant,
 
@@ -434,6 +440,7 @@ impl FdlActiveStation {
             state: State::Offline,
             last_bus_activity: None,
             pending_bytes: 0,
+            heard_after_token_pass: false,
             last_token_time: crate::time::Instant::ZERO,
             end_token_hold_time: crate::time::Instant::ZERO,
             next_application: 0,
@@ -1335,6 +1342,7 @@ impl FdlActiveStation {
         } else {
             let attempt = *self.state.get_pass_token_attempt();
             self.state.transition_check_token_pass(attempt);
+            self.heard_after_token_pass = false;
         }
 
         self.mark_tx(now, tx_res.bytes_sent())
@@ -1382,7 +1390,24 @@ impl FdlActiveStation {
     ) -> PollDone {
         debug_assert_state!(self.state, State::CheckTokenPass { .. });
 
+        if phy.poll_pending_received_bytes(now) != 0 {
+            self.heard_after_token_pass = true;
+        }
+
         if self.check_slot_expired(now) {
+            if self.heard_after_token_pass {
+                // Something was transmitted after our token pass, it just never became a valid
+                // telegram (damaged or truncated).  Another station is active, so the token must
+                // not be sent into its transmission a second time.  If the token did get lost
+                // after all, the token-lost timeout recovers it.
+                log::warn!(
+                    "Undecodable data after token pass to #{}, assuming it took the token.",
+                    self.token_ring.next_station()
+                );
+                self.discard_pending_rx(now, phy);
+                self.state.transition_active_idle();
+                return PollDone::waiting_for_bus();
+            }
             match *self.state.get_check_token_pass_attempt() {
                 PassTokenAttempt::First => {
                     log::warn!(
